@@ -7,7 +7,7 @@
 #  3. every seeded fault under /verif/seeded/*/ (patch.diff + meta.json): golib's own suite must
 #     still pass with the patch, and every check listed in meta.json "caught_by" must exit 1
 #     with a VIOLATION line, twice. Results are written to /verif/seeded/RESULTS.md.
-# Usage: selftest.sh [rewrite|shims|mutants|seeded [name...]]
+# Usage: selftest.sh [rewrite|shims|engine|mutants|seeded [name...]]
 set -u
 VERIF=/verif
 export GOFLAGS=-mod=mod GOPROXY=off GOSUMDB=off GOTOOLCHAIN=local GOCACHE=${VERIF_GOCACHE:-/verif/.cache/go-build}
@@ -33,6 +33,11 @@ if [ "$what" = all ] || [ "$what" = shims ]; then
     (cd /repo && go test -overlay $VERIF/.work/C19/overlay.json -vet=off -c -o $VERIF/.work/bin/shimtest-$sp ./vshim/$sp) && $VERIF/.work/bin/shimtest-$sp > $VERIF/.work/shimtest-$sp.log 2>&1 \
       && echo "shim fidelity $sp: ok" || { echo "SHIM-FIDELITY-FAIL $sp"; cat $VERIF/.work/shimtest-$sp.log; rc=1; }
   done
+fi
+if [ "$what" = all ] || [ "$what" = engine ]; then
+  # E1 on tiny programs with known answers (outcomes, races, deadlock, livelock, bound, replay)
+  $VERIF/.work/bin/vrewrite -repo /repo -shim $VERIF/go/shim -spec specs/C19.json -out $VERIF/.work/C19 > /dev/null || rc=1
+  go build -overlay $VERIF/.work/C19/overlay.json -o $VERIF/.work/bin/e1selftest ./cmd/e1selftest && GOMAXPROCS=1 $VERIF/.work/bin/e1selftest | tail -3 || { echo "E1-SELFTEST-FAIL"; rc=1; }
 fi
 if [ "$what" = all ] || [ "$what" = seeded ]; then
   names="$*"; [ -z "$names" ] && names=$(ls $VERIF/seeded 2>/dev/null | grep -v RESULTS)
